@@ -54,5 +54,5 @@ for sid in sorted(old):
     rep = "; ".join(f"{p}: {', '.join(v)}" for p, v in sorted(old[sid].items())) or "**not reported**"
     lines.append(f"| {sid} | {meta.get('property', sid[:3])} | {str(meta.get('summary', ''))[:160].replace('|', '/')} | {str(meta.get('needs', ''))[:140].replace('|', '/')} | {rep} |")
 (HERE / "seeded" / "RESULTS.md").write_text("\n".join(lines) + "\n")
-own_miss = [s for s in sorted(old) if s[:3] not in old[s]]
+own_miss = [s for s in sorted(old) if s[:3] not in old[s] or all(str(x).startswith("ANALYSIS-ERROR") for x in old[s][s[:3]])]
 print(f"{len(old)} seeded changes; not reported by their own property's check: {own_miss}")
